@@ -51,6 +51,17 @@ reader:
 	for {
 		typed, _, err := r.ReadTypedMsg()
 		if err != nil {
+			// NOTE: the body of a message exceeding the maximum message size has
+			// not been read. It has to be discarded to keep the connection in
+			// sync with the client before the copy operation is aborted.
+			exceeded, has := buffer.UnwrapMessageSizeExceeded(err)
+			if has {
+				serr := r.Slurp(exceeded.Size)
+				if serr != nil {
+					return serr
+				}
+			}
+
 			return err
 		}
 
